@@ -21,7 +21,7 @@ const c10MaxBody = 64 << 10 // everything the mutation tests build stays inside 
 // per-target token dictionaries: inserted, swapped for one another, and used as nesting pairs
 var c10Dict = map[string][]string{
 	"html": {"<a href=\"", "\">", "</a>", "<img src=", " srcset=\"", "<script>", "</script>", "<script type=\"application/json\">", "<style>", "</style>", "<base href=\"", "<link rel=alternate href=",
-		"<meta content=\"http", "<source srcset=", "<img srcset=\"/a.jpg (1x", " data-srcset=\"/a.jpg 300w (min-width: 10px", " (", "(", " 2x, ", " 300w", "(min-width: 600px) 480px, ", "<video src=", "<audio src=", " style=\"background:url(", " data-item='", " data-preview=\"http", " onclick=\"window.location='", "<!--", "-->", "<![CDATA[", "]]>",
+		"<meta content=\"http", "<meta http-equiv=\"refresh\" content=\"5; URL=http", ";url=", "URL=", "\u023a", "\u023a\u023a\u023a\u023a\u023a\u023a", "\u023e", "\u0130", "\u1e9e", "\u212a", "<source srcset=", "<img srcset=\"/a.jpg (1x", " data-srcset=\"/a.jpg 300w (min-width: 10px", " (", "(", " 2x, ", " 300w", "(min-width: 600px) 480px, ", "<video src=", "<audio src=", " style=\"background:url(", " data-item='", " data-preview=\"http", " onclick=\"window.location='", "<!--", "-->", "<![CDATA[", "]]>",
 		"<table>", "<select>", "<template>", "<svg>", "<math>", "<noscript>", "<plaintext>", "<textarea>", "<title>", "<iframe srcdoc=\"", "&#x", "&amp;", "&#0;", "url(", ")", "'", "\"", "=", ",", " 1x, ", "//", "http://", "https://[", "%zz", "\\u00", "{\"", "\":", "}", "{", "\x00", "\xff", "\xef\xbb\xbf"},
 	"json": {"{", "}", "[", "]", "\"", "\":", ",", ":", "\\\"", "\\\\", "\\u", "\\ud800", "null", "true", "1e999", "-", "0x", "{\"a\":", "[\"", "\"]", "\"{\\\"", "\\\"}\"", "http://", "//", "https://[::1]/", ".png", "\x00", "\xff", "\xef\xbb\xbf", " ", "\n", "\"      \"", "\"\\n        \"", "\"\\t\\t\\t\\t\\t\\t\"", "     ", "\\n\\n\\n\\n\\n"},
 	"xml": {"<", ">", "</", "/>", "<?xml version=\"1.0\" encoding=\"", "?>", "<!--", "-->", "<![CDATA[", "]]>", "<!DOCTYPE ", "<!ENTITY ", "[", "]>", "&amp;", "&#x", "&#", ";", "&x;", " xmlns=\"", " xmlns:a=\"", "a:", "=\"", "='", "\"", "'",
